@@ -193,10 +193,24 @@ def _make_system(rng, trial, tmpdir, weighted, l, frames=None, steps=None):
         H[1, 0] = rng.uniform(-0.4, 0.4) * L[0]
         H[2, 0] = rng.uniform(-0.3, 0.3) * L[0]
         H[2, 1] = rng.uniform(-0.3, 0.3) * L[1]
+        if frames is None and T == 1 and trial % 4 == 1:
+            T = 2
+            tsteps = [int(x) for x in steps(T)] if steps is not None else [10 * s for s in range(T)]
     ppp = np.array([int(rng.integers(0, 2)) for _ in range(3)]) if trial % 3 == 2 else np.ones(3, dtype=int)
     Nmax = int(rng.choice([30, 30, 4]))
+    # the cell of every frame: __init__ asserts equal box LENGTHS only, so in the triclinic trials the tilt factors change from frame
+    # to frame (sheared sample at constant lx, ly, lz); the neighbours are drawn among all particles, so most bonds cross a periodic face
+    Hs = [H]
+    for s in range(1, T):
+        Hf = np.diag(L)
+        if trial % 2 == 1:
+            Hf[1, 0] = rng.uniform(-0.4, 0.4) * L[0]
+            Hf[2, 0] = rng.uniform(-0.3, 0.3) * L[0]
+            Hf[2, 1] = rng.uniform(-0.3, 0.3) * L[1]
+        Hs.append(Hf)
     snaps, nbs, wts = [], [], []
     for s in range(T):
+        H = Hs[s]
         pos = rng.uniform(0, 1, size=(N, 3)) @ H
         snaps.append(RUm.SingleSnapshot(timestep=tsteps[s], nparticle=N, particle_type=np.ones(N, dtype=int), positions=pos, boxlength=L.copy(),
                                         boxbounds=np.column_stack([np.zeros(3), L]), realbounds=np.column_stack([np.zeros(3), L]), hmatrix=H.copy()))
@@ -221,18 +235,19 @@ def _make_system(rng, trial, tmpdir, weighted, l, frames=None, steps=None):
             for i in range(N):
                 f.write(f"{i+1} {len(wts[s][i])} " + " ".join(repr(w) for w in wts[s][i]) + "\n")
     S = RUm.Snapshots(nsnapshots=T, snapshots=snaps)
-    return dict(N=N, T=T, H=H, L=L, ppp=ppp, Nmax=Nmax, snaps=snaps, S=S, nbs=nbs, wts=wts, nfile=nfile, wfile=wfile if weighted else None, l=l,
+    return dict(N=N, T=T, H=Hs[0], Hs=Hs, L=L, ppp=ppp, Nmax=Nmax, snaps=snaps, S=S, nbs=nbs, wts=wts, nfile=nfile, wfile=wfile if weighted else None, l=l,
                 timesteps=tsteps)
 
 
 def _ref_fields(sy):
     """q and Q by eq. (1)-(3), plain loops"""
     import numpy as np
-    N, T, H, ppp, l, Nmax = sy["N"], sy["T"], sy["H"], sy["ppp"], sy["l"], sy["Nmax"]
-    Hinv = np.linalg.inv(H)
+    N, T, ppp, l, Nmax = sy["N"], sy["T"], sy["ppp"], sy["l"], sy["Nmax"]
     q = np.zeros((T, N, 2 * l + 1), dtype=complex)
     Q = np.zeros_like(q)
     for s in range(T):
+        H = sy["Hs"][s]          # the cell of this frame
+        Hinv = np.linalg.inv(H)
         pos = sy["snaps"][s].positions
         for i in range(N):
             nb_ = sy["nbs"][s][i][:Nmax]
@@ -283,7 +298,7 @@ def _replay_boo(what, case, clause, model, seed):
                       dict(frames=4, steps=lambda T: [0, 10, 30, 70][:T]), dict(frames=3, steps=lambda T: [3, 4, 9][:T])][trial % 5]
             sy = _make_system(rng, trial, tmpdir, weighted, l, **kw)
             info = {k: sy[k] for k in ("N", "T", "l", "Nmax", "timesteps")}
-            info.update(hmatrix=sy["H"].tolist(), ppp=sy["ppp"].tolist(), weighted=bool(weighted), neighbours=sy["nbs"],
+            info.update(hmatrix_per_frame=[h.tolist() for h in sy["Hs"]], ppp=sy["ppp"].tolist(), weighted=bool(weighted), neighbours=sy["nbs"],
                         weights=sy["wts"] if weighted else None, positions=[sn.positions.tolist() for sn in sy["snaps"]])
             try:
                 obj = B.boo_3d(sy["S"], l=l, neighborfile=sy["nfile"], weightsfile=sy["wfile"], ppp=sy["ppp"], Nmax=sy["Nmax"])
@@ -407,19 +422,20 @@ def _check_method(B, obj, what, case, sy, q, Q, tmpdir, rng):
         import pandas as pd
         of = os.path.join(tmpdir, "gl.csv") if case.endswith("/file") else ""
         rdelta = float(rng.choice([0.25, 0.4, 0.5]))
-        H, L, ppp = sy["H"], sy["L"], sy["ppp"]
+        L, ppp = sy["L"], sy["ppp"]
         try:
             got = obj.spatial_corr(coarse_graining=cg, rdelta=rdelta, outputfile=of)
         except Exception as e:
             return f"spatial_corr(coarse_graining={cg}, rdelta={rdelta}) raises {type(e).__name__}: {e}"
         B = int(L.min() / 2.0 / rdelta)
-        Hinv = np.linalg.inv(H)
         V = float(np.prod(L))
         edges = np.arange(B + 1) * rdelta
         shell = 4.0 / 3.0 * np.pi * (edges[1:] ** 3 - edges[:-1] ** 3)
         want = np.zeros((B, 3))
         for s_ in range(T):
             pos = sy["snaps"][s_].positions
+            H = sy["Hs"][s_]
+            Hinv = np.linalg.inv(H)
             c1, cw = np.zeros(B), np.zeros(B)
             for i in range(N - 1):
                 for j in range(i + 1, N):
@@ -784,10 +800,15 @@ class WCap(Unit):
     module = MOD
     qualname = f"{CLS}.w_W_cap"
     prop = "C09"
-    timeout = 4      # the two loop-step identities are decided by the second solver (z3 4.8) in about a second
+    timeout = 10
+    # the two loop-step goals are "the stored polynomial at (n, i) is the closed form at (n, i)": equal up to substitution of equal
+    # indices — decided with the products as uninterpreted functions (sound for unsat) by congruence, for every degree; without it the
+    # nonlinear solvers need seconds for l = 2 and give up for l = 6
+    solver_opts = {"uf_abstraction": True, "uf_abstraction_timeout": 10}
 
     def cases(self):
-        return ["l=2/local/files", "l=2/coarse/nofile"]
+        # concrete degrees: the loop over the (2l+1)^3 index triples of Wignerindex is executed, the particle / frame loops are summarised
+        return ["l=2/local/files", "l=2/coarse/nofile", "l=3/coarse/nofile", "l=4/local/nofile", "l=4/coarse/files", "l=6/coarse/nofile", "l=6/local/files"]
 
     def setup(self, ctx, case):
         ls, cg, of = case.split("/")
